@@ -19,8 +19,14 @@ with what each resolver does (the "world" folded into the operation):
                                    that *serialises to null* (completes to null)
             | ["sbad", x]          ... a value whose serialisation raises (RuntimeError tagged x
                                    raised by complete_value, not by the resolver)
-            | ["obj", [fld, ...]] | ["list", inn, "int"|"obj"|"sc", [item, ...]]
+            | ["obj", [fld, ...]] | ["list", inn, "int"|"obj"|"sc"|"abs", [item, ...]]
     item    = ["null"] | ["int", z] | ["obj", [fld, ...]] | ["snull"] (in an "sc" list)
+            | ["bad"] (in an "abs" list: a list of the union type U; the item cannot be completed --
+              U.resolve_type raises a ResolverError for it). Library policy: the items before it are
+              started and run to completion, the items after it are never started, then the whole
+              list field is null with exactly ONE error at the field's path. In the Coq abstraction
+              the list is truncated before the bad item (same events, same timing) and the
+              comparison nulls the field and expects the extra error (Run/C08run.v fix_data).
   In the Coq abstraction snull is BNull / ItNull ("the completed value is null") and
   sbad x is BExn x ("an unexpected exception is raised by the resolver or by completing
   its value"): the events and every observable of the machine are the same.
@@ -53,7 +59,9 @@ from py_gql.validation import validate_ast
 from py_gql.execution import BlockingExecutor, Executor
 from py_gql.execution.runtime import BlockingRuntime
 
+import contextlib
 import re
+import sys
 
 from . import sched
 
@@ -88,6 +96,8 @@ SHAPES = {  # shape name -> (GraphQL type, non-null?, kind)
     "lO": ("[T!]", False, "lobjn"), "lOn": ("[T!]!", True, "lobjn"),
     "li": ("[Int]", False, "lint"), "lin": ("[Int]!", True, "lint"),
     "lI": ("[Int!]", False, "lintn"), "lIn": ("[Int!]!", True, "lintn"),
+    "lu": ("[U]", False, "labs"), "lun": ("[U]!", True, "labs"),      # U: a union whose resolve_type may raise
+    "lU": ("[U!]", False, "labsn"), "lUn": ("[U!]!", True, "labsn"),
     "s": ("Sc", False, "sc"), "sn": ("Sc!", True, "sc"),
     "ls": ("[Sc]", False, "lsc"), "lsn": ("[Sc]!", True, "lsc"),
     "lS": ("[Sc!]", False, "lscn"), "lSn": ("[Sc!]!", True, "lscn"),
@@ -133,6 +143,16 @@ def make_error(variant):
     if variant == 5:
         return SHARED_ERROR
     return ResolverError("resolver error")
+
+
+class BadItem:
+    """a list item the union's resolve_type cannot type"""
+
+
+def _resolve_u(value, _ctx, _info):
+    if isinstance(value, BadItem):
+        raise ResolverError("resolver error: untypable list item")
+    return "T"
 
 
 class ScNull:
@@ -183,7 +203,7 @@ def _sdl(layout="distinct"):
     args = "(%s)" % ", ".join("%s: Int" % a for a in ARG_POOL)
     fields = "\n".join("  %s%s%s: %s" % (sh, m, args, SHAPES[sh][0]) for sh in SHAPES for m in FIELD_SUFFIXES)
     q, mu, types = LAYOUTS[layout]
-    return ("scalar Sc\nschema { query: %s mutation: %s }\n" % (q, mu)
+    return ("scalar Sc\nunion U = T\nschema { query: %s mutation: %s }\n" % (q, mu)
             + "".join("type %s {\n%s\n}\n" % (t, fields) for t in types))
 
 
@@ -203,7 +223,7 @@ def shape_of(fld):
     if b[0] in ("snull", "sbad"):
         return "sn" if nn else "s"
     if b[0] == "list":
-        base = {"obj": "lo", "int": "li", "sc": "ls"}[b[2]]
+        base = {"obj": "lo", "int": "li", "sc": "ls", "abs": "lu"}[b[2]]
         if b[1]:
             base = base[0] + base[1].upper()
         return base + ("n" if nn else "")
@@ -233,15 +253,16 @@ def doc_of(program):
         sub = ""
         if b[0] == "obj":
             sub = " { %s }" % sel(b[1], f.get("render"), "T")
-        elif b[0] == "list" and b[2] == "obj":
+        elif b[0] == "list" and b[2] in ("obj", "abs"):
             # one selection for all items: union of the items' keys (same key => same field)
             merged = {}
             for it in b[3]:
                 if it[0] == "obj":
                     for g in it[1]:
                         merged.setdefault(g["k"], g)
-            sub = " { %s }" % (sel([merged[k] for k in sorted(merged)], None, "T") if merged else "__typename")
-        elif SHAPES[shape_of(f)][2] in ("obj", "lobj", "lobjn"):
+            inner = sel([merged[k] for k in sorted(merged)], None, "T") if merged else "__typename"
+            sub = " { ... on T { %s } }" % inner if b[2] == "abs" else " { %s }" % inner
+        elif SHAPES[shape_of(f)][2] in ("obj", "lobj", "lobjn", "labs", "labsn"):
             sub = " { __typename }"
         args = ""
         if f.get("args"):
@@ -332,7 +353,7 @@ def ordered_program(program):
             ch = sub["k%d" % f["k"]]
             if b[0] == "obj":
                 f = dict(f, b=["obj", reorder(b[1], ch)])
-            elif b[0] == "list" and b[2] == "obj":
+            elif b[0] == "list" and b[2] in ("obj", "abs"):
                 f = dict(f, b=b[:3] + [[["obj", reorder(it[1], ch)] if it[0] == "obj" else it for it in b[3]]])
             out.append(f)
         return out
@@ -449,7 +470,8 @@ class _Run:
         out = []
         for i, it in enumerate(b[3]):
             out.append(None if it[0] == "null" else it[1] if it[0] == "int"
-                       else ScNull() if it[0] == "snull" else self.obj(p + (i,), it[1]))
+                       else ScNull() if it[0] == "snull" else BadItem() if it[0] == "bad"
+                       else self.obj(p + (i,), it[1]))
         return out
 
     # S everywhere; P/C under the blocking configurations; P under asyncio
@@ -529,6 +551,7 @@ def _schema(config, run_box, layout="distinct"):
     if (config, layout) in _SCHEMAS:
         return _SCHEMAS[(config, layout)]
     schema = build_schema(_sdl(layout), additional_types=[_sc_type()])
+    schema.get_type("U").resolve_type = _resolve_u
     for tname in LAYOUTS[layout][2]:
         for sh in SHAPES:
             for m in ("P", "C"):
@@ -638,6 +661,19 @@ def _finish_obs(ctl, state, first, schedule, extra=None):
     return obs
 
 
+@contextlib.contextmanager
+def _interpreter_default_recursion_limit():
+    """./check raises the recursion limit for its own (Coq term building) needs; the
+    implementation runs under CPython's default so that recursion proportional to the size of
+    the operation is seen as it would be in an application"""
+    old = sys.getrecursionlimit()
+    sys.setrecursionlimit(1000)
+    try:
+        yield
+    finally:
+        sys.setrecursionlimit(old)
+
+
 def run_blocking(program, config):
     ctl = _NullCtl()
     run = _Run(program, config, ctl)
@@ -645,8 +681,10 @@ def run_blocking(program, config):
     schema = _schema(config, _BOX, program.get("layout", "distinct"))
     cls = BlockingExecutor if config == "bexec" else Executor
     try:
-        res = process_graphql_query(schema, _validated(schema, program, config), root=run.obj((), program["fields"]), middlewares=([_mw] if program.get("mw") else None), validators=[],
-                                    runtime=BlockingRuntime(), executor_cls=cls)
+        doc = _validated(schema, program, config)
+        with _interpreter_default_recursion_limit():
+            res = process_graphql_query(schema, doc, root=run.obj((), program["fields"]), middlewares=([_mw] if program.get("mw") else None), validators=[],
+                                        runtime=BlockingRuntime(), executor_cls=cls)
         state = ("ok", res)
     except Exception as e:  # noqa
         state = ("raised", e)
@@ -678,7 +716,7 @@ def run_scheduled(program, config, choose, timeout=None):
         schedule = []
         doc = _validated(schema, program, base)
         try:
-            with sched.watchdog(timeout):
+            with sched.watchdog(timeout), _interpreter_default_recursion_limit():
                 ctl.start(lambda: process_graphql_query(
                     schema, doc, root=run.obj((), program["fields"]), middlewares=([_mw] if program.get("mw") else None), validators=[], runtime=ctl.runtime, executor_cls=Executor))
                 schedule = _drive(ctl, choose, schedule)
@@ -768,7 +806,12 @@ def c_body(b, config):
     if b[0] == "obj":
         return "(BObj %s)" % c_flds(b[1], config)
     items = "INil"
-    for it in reversed(b[3]):
+    its = b[3]
+    for j, it in enumerate(its):
+        if it[0] == "bad":      # the items after an untypable one are never started
+            its = its[:j]
+            break
+    for it in reversed(its):
         if it[0] in ("null", "snull"):
             t = "ItNull"
         elif it[0] == "int":
@@ -812,7 +855,31 @@ def c_event(ev):
     return "(%s %s)" % ("LInvoke" if ev[0] == "invoke" else "LFinish", c_tid(ev[1]))
 
 
-def c_obs(obs):
+def bad_paths(program):
+    """numeric paths of the list fields that contain an item that cannot be completed"""
+    out = []
+
+    def walk(path, f):
+        p = path + [f["k"]]
+        b = f["b"]
+        if b[0] == "obj":
+            for g in b[1]:
+                walk(p, g)
+        elif b[0] == "list":
+            for i, it in enumerate(b[3]):
+                if it[0] == "bad":
+                    out.append(p)
+                    break
+                if it[0] == "obj":
+                    for g in it[1]:
+                        walk(p + [i], g)
+
+    for f in program["fields"]:
+        walk([], f)
+    return out
+
+
+def c_obs(obs, bad=()):
     """Coq term of type Run.C08run.obs"""
     if obs.get("hang"):
         core = "OHang"
@@ -824,8 +891,9 @@ def c_obs(obs):
         core = "OFailOther"
     else:
         core = "(OData %s [%s])" % (c_val(obs["data"]), "; ".join(c_entry_err(e) for e in obs["errors"]))
-    return "(MkObs [%s] %s [%s] %d %s [%s])" % (
+    return "(MkObs [%s] %s [%s] %d %s [%s] [%s])" % (
         "; ".join(c_tid(t) for t in obs["schedule"]), core,
         "; ".join(c_event(e) for e in obs["events"]), obs.get("leftover", 0),
         "true" if obs.get("changed_after_completion") else "false",
-        "; ".join(c_tid(t) for t in obs.get("eager", [])))
+        "; ".join(c_tid(t) for t in obs.get("eager", [])),
+        "; ".join(c_path(p) for p in bad))
